@@ -250,7 +250,7 @@ def run(ctx):
         return
     got = {}
     for l in out.splitlines():
-        f = l.split(" ")
+        f = l.split("\t")
         if len(f) == 5 and f[0].isdigit():
             got[int(f[0])] = dict(x.split("=", 1) for x in f[1:])
     mlines = []
